@@ -38,6 +38,8 @@ def transforms(rng, p, r):
             if perm != tuple(range(nd)):
                 out.append((f"perm{perm}", np.transpose(p, perm), np.transpose(r, perm)))
         out.append(("fortran", np.asfortranarray(p), np.asfortranarray(r)))
+        out.append(("mixed-layout-pred-F", np.asfortranarray(p), np.ascontiguousarray(r)))
+        out.append(("mixed-layout-ref-F", np.ascontiguousarray(p), np.asfortranarray(r)))
     big_p, big_r = np.pad(p, [(1, 1)] * nd), np.pad(r, [(1, 1)] * nd)
     sl = tuple(slice(1, -1) for _ in range(nd))
     out.append(("noncontiguous-view", big_p[sl], big_r[sl]))
@@ -87,8 +89,19 @@ def run(ctx):
             cfg["mthr"] = rng.choice([0.05, 0.1, 0.2, 0.3])
         if it == "semantic":
             p, r = (p != 0).astype("uint8"), (r != 0).astype("uint8")
-            if cfg.get("backend") is None:
-                cfg["backend"] = rng.choice(["cc3d", "scipy"])      # the default backend depends on ndim, which padding keeps but we fix it anyway
+            if it_no < n_main and rng.random() < 0.35:
+                # speckled maps (diagonal contacts: the two backends differ) in shapes with and without singleton axes
+                shape = rng.choice([(1, rng.randint(3, 6), rng.randint(3, 6)), (rng.randint(3, 5), 1, rng.randint(3, 6)),
+                                    (rng.randint(2, 4), rng.randint(3, 5), rng.randint(3, 5)), (rng.randint(3, 6), rng.randint(3, 7))])
+                r = np.array([rng.choice([0, 0, 0, 1, 1]) for _ in range(int(np.prod(shape)))], "uint8").reshape(shape)
+                p = r.copy()
+                fl = p.reshape(-1)
+                for _ in range(rng.randint(0, 3)):
+                    fl[rng.randrange(fl.size)] = rng.choice([0, 1])
+            if rng.random() < 0.5:
+                cfg["backend"] = None                                # default backend: chosen by ndim, which no transformation here changes
+            elif cfg.get("backend") is None:
+                cfg["backend"] = rng.choice(["cc3d", "scipy"])
         uniq = True
         if it == "semantic":
             try:
@@ -111,9 +124,42 @@ def run(ctx):
                 key = None
                 if it == "semantic" and not uniq:
                     key = "D15-semantic-tie-order"
-                rep = {"cfg": cfg, "pred": p, "ref": r, "transform": name, "pred2": np.ascontiguousarray(p2), "ref2": np.ascontiguousarray(r2)}
+                rep = {"cfg": cfg, "pred": p, "ref": r, "transform": name, "pred2": p2, "ref2": r2}
                 if key:
                     rep["finding_key"] = key
+                ctx.violation(f"{name} changed the result: " + d, rep)
+    # single slices stored as volumes (an axis of length 1), default backend: padding along the thin axis, moving the thin axis
+    for _ in range(ctx.scale(30, 250)):
+        h, w = rng.randint(3, 6), rng.randint(3, 7)
+        ax = rng.randrange(3)
+        shape = [h, w]; shape.insert(ax, 1)
+        r = np.array([rng.choice([0, 0, 0, 1, 1]) for _ in range(h * w)], "uint8").reshape(shape)
+        p = r.copy()
+        fl = p.reshape(-1)
+        for _k in range(rng.randint(0, 3)):
+            fl[rng.randrange(fl.size)] = rng.choice([0, 1])
+        cfg = gen_cfg(rng, "semantic")
+        cfg["backend"] = None if rng.random() < 0.7 else rng.choice(["cc3d", "scipy"])
+        try:
+            ip, ir = pipeline.approximate(p, r, cfg.get("backend"))
+            uniq = meta.unique_matching(cfg, ip, ir)
+        except Exception:
+            uniq = False
+        o1 = impl.evaluate(impl.make_evaluator(cfg), p.copy(), r.copy())
+        pads = [(rng.randint(0, 2), rng.randint(0, 2)) for _k in range(3)]
+        pads[ax] = (rng.randint(0, 3), rng.randint(1, 3))
+        perm = rng.choice([q for q in itertools.permutations(range(3)) if q != (0, 1, 2)])
+        ts = [("pad-thin-axis", np.pad(p, pads), np.pad(r, pads)), (f"perm{perm}", np.transpose(p, perm), np.transpose(r, perm)),
+              (f"perm{perm}+pad", np.pad(np.transpose(p, perm), 2), np.pad(np.transpose(r, perm), 2))]
+        for name, p2, r2 in ts:
+            o2 = impl.evaluate(impl.make_evaluator(cfg), p2, r2)
+            ctx.count({"cfg": cfg, "pred": p.tolist(), "ref": r.tolist(), "g": name}, bool(p.any() and r.any()))
+            ctx.bump(f"semantic-thin/{name[:8]}/unique={uniq}")
+            d = meta.same_outcome(o1, o2)
+            if d:
+                rep = {"cfg": cfg, "pred": p, "ref": r, "transform": name, "pred2": p2, "ref2": r2}
+                if not uniq:
+                    rep["finding_key"] = "D15-semantic-tie-order"
                 ctx.violation(f"{name} changed the result: " + d, rep)
     # the D15 witness (semantic input, two equal-score competing candidates; left-right flip)
     w = common.VERIF / "corpus" / "C10" / "d15.json"
